@@ -1007,3 +1007,36 @@ Example C15_example_concrete_forms :
   t_out t = Done /\ map (map fst) (t_pages t) = [[b "a"]; [b "b"]; []; [b "d"]] /\
   map u_path (t_reqs t) = [exs_path; exs_path; exs_path; exs_path].
 Proof. vm_compute. repeat split. Qed.
+
+(* the typed reading (n as a number) of the raw request the client sends IS the request of the
+   association-list model -- the same list, not only the same lookups *)
+Theorem C15_request_query_exact :
+  forall c p raw last, Forall byte_ok last -> (c_n c < 10 ^ 40)%Z ->
+    typed_query (request_query c raw last) = u_query (mk_request c (mkUrl p (typed_query raw)) last).
+Proof. exact request_query_exact. Qed.
+Print Assumptions C15_request_query_exact.
+
+(* all histories, for ANY registry on association lists that is fed the typed reading of the raw
+   requests (serve_typed; it may echo every parameter of a request into its links): the page loop
+   on strings and the page loop on association lists deliver the same pages with the same outcome,
+   and the raw requests read exactly as the model's requests.  The former hypothesis "answers
+   indistinguishable requests alike" is gone. *)
+Theorem C15_string_loop_exact :
+  forall (sch host : str) (serve : nat -> url -> response) (resolve : url -> str -> option url)
+         (cb_fail : nat -> bool) (c : cfg) (Inv : sreq -> Prop),
+    (c_n c < 10 ^ 40)%Z ->
+    (forall i rs t,
+       Inv rs -> parse_link (rs_link (serve i (typed_req rs))) = LTarget t ->
+       match resolve_ref (mkS sch host (sr_path rs) (sr_query rs)) t, resolve (typed_req rs) t with
+       | ROk u, Some u' => s_path u <> [] /\ u' = mkUrl (s_path u) (typed_query (s_query u)) /\
+                           Inv (mkSR (s_path u) (request_query c (s_query u) []))
+       | RErr, None => True
+       | _, _ => False
+       end) ->
+    forall fuel i k p raw last,
+      Inv (mkSR p (request_query c raw last)) -> Forall byte_ok last ->
+      exists ts, loop_s sch host (serve_typed serve) cb_fail c fuel i k p raw last = Some ts /\
+                 let t := loop serve resolve cb_fail c fuel i k (mkUrl p (typed_query raw)) last in
+                 st_pages ts = t_pages t /\ st_out ts = t_out t /\ map typed_req (st_reqs ts) = t_reqs t.
+Proof. exact loop_s_exact. Qed.
+Print Assumptions C15_string_loop_exact.
